@@ -6,6 +6,9 @@ CONSTANTS
   Kinds = {"single", "stream2"}
   MaxCredit = 2
   MaxTick = 2
+  NP = 1
+  Limit = 1
+  MaxFail = 1
   MaxAbort = 1
 SPECIFICATION SpecConn
 INVARIANT EachResponseOnce
